@@ -48,7 +48,7 @@ CHECKS = {
              "applies seeded fault sequences (EOF at any byte, bit flips, overwritten/zero-filled ranges, dropped/duplicated/swapped/misdirected "
              "records, torn blocks, broken UTF-8, boundary values); the real reader consumes the result through tt.py-like streams and any "
              "returned document goes through ISD generation, the LCD filter and all three writers under seeded valid configurations. 8 of every "
-             "120 runs are sweep runs that enumerate the complete single-fault space (every truncation offset, 4 corruptions per byte, every record "
+             "400 runs are sweep runs that enumerate the complete single-fault space (every truncation offset, 4 corruptions per byte, every record "
              "drop/duplication/swap) of one small seeded file. Oracle: the error-class contract of the statement, termination, and no exception "
              "downstream. Complete along the single-fault dimension per swept file; files and multi-fault combinations are sampled."),
     "design_ref": "DESIGN.md section 3 (C18)",
